@@ -112,6 +112,10 @@ def rand_slice(R: Draw, g: DocGen, size: str = "tiny") -> dict:
     T = P.tokens_of(src["c"], rs.leaf_types)
     dd = S.depth_table(T)
     deep = [p for p in range(len(dd)) if dd[p] > 0]
+    if R.bool(0.04):
+        h = hollow_slice(R, rs, src)
+        if h is not None:
+            return h
     for _ in range(4):
         a = R.int(0, len(T))
         if deep and R.bool(0.6):
@@ -129,6 +133,29 @@ def rand_slice(R: Draw, g: DocGen, size: str = "tiny") -> dict:
         if sl is not None:
             return sl
     return dict(EMPTY_SLICE)
+
+
+def hollow_slice(R: Draw, rs: RefSchema, doc: dict) -> dict | None:
+    """A chain of empty nodes open to (nearly) full depth on both sides: content of positive size whose *slice* size
+    is 0 or 1 - what Slice.max_open gives for an empty block (<paragraph>(1,1), <blockquote(paragraph)>(2,2))."""
+    import copy
+
+    chain = []
+    node = doc
+    while True:
+        kids = [c for c in node["c"] if c["t"] != "text" and not rs.leaf[c["t"]]]
+        if not kids or (chain and R.bool(0.3)):
+            break
+        node = R.choice(kids)
+        chain.append(node)
+    chain = chain[R.int(0, max(0, len(chain) - 1)) :]
+    if not chain:
+        return None
+    inner: list = []
+    for nd in reversed(chain):
+        inner = [P.mk(nd["t"], copy.deepcopy(nd["a"]), inner, copy.deepcopy(nd["m"]))]
+    k = len(chain)
+    return {"c": inner, "os": k, "oe": k if R.bool(0.7) else k - 1}
 
 
 def closed_slice(R: Draw, g: DocGen) -> dict:
